@@ -193,6 +193,18 @@ def read_cgsmiles(pattern):
             else:
                 break
 
+        # a %nn marker can also end the string (fragment
+        # strings have no closing brace) so we complete it here
+        if multi_ring:
+            ring_marker = int(ring_marker[1:])
+            if ring_marker in cycle:
+                cycle_edges.append((current,
+                                    cycle[ring_marker][0],
+                                    cycle[ring_marker][1]))
+                del cycle[ring_marker]
+            else:
+                cycle[ring_marker] = [current, ring_bond_order]
+
         # check if there is a bond-order following the node
         if stop < len(pattern) and pattern[stop+rdx-1] in '- + . = # $':
             bond_order = symbol_to_order[pattern[stop+rdx-1]]
